@@ -126,7 +126,7 @@ def check_main(prop, tier, engine, engine_name, families, level, rule, assumptio
             for (path, body), (st, tr) in zip(group, res):
                 stats.evaluations += 1
                 stats.by_family['regress'] = stats.by_family.get('regress', 0) + 1
-                if st != 'ok':
+                if st != 'ok' or tr.get('budget_exceeded'):
                     rep.add_harness('regress %s: %s' % (path, tr))
                     continue
                 for sig in eng.oracle(body['plan'], tr):
@@ -168,6 +168,9 @@ def check_main(prop, tier, engine, engine_name, families, level, rule, assumptio
             stats.by_family[fam] = stats.by_family.get(fam, 0) + 1
             if st != 'ok':
                 rep.add_harness('%s seed=%d: %s' % (fam, plan['seed'], tr))
+                continue
+            if tr.get('budget_exceeded'):
+                stats.probe('runs_inconclusive_step_budget')
                 continue
             sh = engine.shape(plan, tr)
             stats.shapes.add(sh)
